@@ -200,17 +200,38 @@ unsafe fn build(c: &BigCase, n: usize, m: usize) -> Built {
 struct SendBox(Option<Rc<BNode>>);
 unsafe impl Send for SendBox {}
 
+thread_local! {
+    /// a handle parked in a thread-local of the dropping thread: it is released by
+    /// the thread-local's destructor while the thread shuts down
+    static TLS_SLOT: RefCell<Option<Rc<BNode>>> = const { RefCell::new(None) };
+}
+static TLS_MODE: std::sync::atomic::AtomicBool = std::sync::atomic::AtomicBool::new(false);
+
 /// Drop `h` on a thread with a 128 KiB stack; returns false if the drop panicked.
+/// In TLS mode the handle is parked in a thread-local first (registered before
+/// the thread's first collection) and dropped by thread shutdown.
 fn drop_small_stack(h: Rc<BNode>) -> bool {
     let b = std::sync::Mutex::new(SendBox(Some(h)));
     let sh = shared();
     let prev = sh.phase;
     sh.phase = Phase::Lib as u32;
+    let tls = TLS_MODE.load(Ordering::Relaxed);
     let t = std::thread::Builder::new()
         .stack_size(128 * 1024)
         .spawn(move || {
             let h = b.lock().unwrap().0.take();
-            drop(h);
+            if tls {
+                TLS_SLOT.with(|s| *s.borrow_mut() = h);
+                // a first collection on this thread (a self-adopting Rc<u8> whose
+                // stored handle is owned in raw form), after the slot exists
+                let x = Rc::new(0u8);
+                let c = Rc::clone(&x);
+                unsafe { Rc::adopt_unchecked(&x, &c) };
+                let _owned_by_x = Rc::into_raw(c);
+                drop(x);
+            } else {
+                drop(h);
+            }
         })
         .expect("spawn");
     let ok = t.join().is_ok();
@@ -240,11 +261,20 @@ pub const L_NEST_GT1024: u32 = 18;
 pub const L_DENSE: u32 = 19;
 pub const L_DENSE_GT100K: u32 = 20;
 pub const L_HUB_GT16K: u32 = 21;
-pub const NAMES: [&str; 22] = ["adopted_tail", "outside_handles_kept", "outside_weaks", "destructor_clones_peer", "doubly_linked", "group>128", "group>4096", "group>16", "tail>1000", "payload_without_drop_glue", "destructor_panics", "object_adopted_by_every_member", "unwrap_after_taking_back_without_unadopt", "hub_fully_unadopted_again", "nested_collections_chain", "nesting_depth>64", "sole_holder_sweep", "sole_holder_sweep_every_member", "nesting_depth>1024", "complete_digraph", "records>100000", "emptied_hub>16384_adoptees"];
+pub const L_TLS: u32 = 22;
+pub const NAMES: [&str; 23] = ["adopted_tail", "outside_handles_kept", "outside_weaks", "destructor_clones_peer", "doubly_linked", "group>128", "group>4096", "group>16", "tail>1000", "payload_without_drop_glue", "destructor_panics", "object_adopted_by_every_member", "unwrap_after_taking_back_without_unadopt", "hub_fully_unadopted_again", "nested_collections_chain", "nesting_depth>64", "sole_holder_sweep", "sole_holder_sweep_every_member", "nesting_depth>1024", "complete_digraph", "records>100000", "emptied_hub>16384_adoptees", "dropped_by_thread_local_destructor_at_thread_exit"];
 
 fn body(id: &str, c: &BigCase, tier: Tier) {
     let sh = shared();
     arena::st().count_only = true;
+    // a quarter of the cases without a panicking destructor: handles are dropped
+    // by thread shutdown (thread-local destructor)
+    TLS_MODE.store((c.order >> 13) & 3 == 1 && c.panic_at.is_none(), Ordering::Relaxed);
+    if TLS_MODE.load(Ordering::Relaxed) {
+        sh.labels |= 1 << L_TLS;
+    }
+    // a third of the cases run with a sink logger (Trace / Debug / Info)
+    exec::set_log_level_sel(match (c.order >> 9) % 9 { 0 => 1, 1 => 3, 2 => 5, _ => 0 });
     let (n, m) = sizes(c, tier);
     let total = n + m;
     // heap layout salt (C09): shift every later allocation
@@ -323,7 +353,7 @@ fn body(id: &str, c: &BigCase, tier: Tier) {
     if c.sink {
         l |= 1 << L_SINK;
     }
-    sh.labels = l;
+    sh.labels |= l;
     // C06 before anything is dropped
     for (i, h) in &kept {
         let want = b.indeg[*i] as usize + kept_on(*i, &kept) + usize::from(*i == 0);
@@ -608,7 +638,7 @@ fn body_nodrop(_id: &str, c: &BigCase, tier: Tier) {
             let hb = borrow(slot[i]);
             weaks.push((i, trk(|| Rc::downgrade(&hb))));
         }
-        sh.labels = l | (1 << L_WEAK);
+        sh.labels |= l | (1 << L_WEAK);
         exec::set_msg(&format!("payload without drop glue: ring of {} + tail of {} ({} adoptions)", n, m, adoptions));
         sh.op = 1;
         sh.phase = Phase::Lib as u32;
@@ -688,7 +718,7 @@ fn body_nested(c: &BigCase, _tier: Tier) {
     let sh = shared();
     let k = c.nest as usize;
     sh.counters[20] = 2 * k as u64;
-    sh.labels = (1 << L_NESTED) | (1 << L_GT16) | if k > 64 { 1 << L_NEST_GT64 } else { 0 } | if k > 1024 { 1 << L_NEST_GT1024 } else { 0 };
+    sh.labels |= (1 << L_NESTED) | (1 << L_GT16) | if k > 64 { 1 << L_NEST_GT64 } else { 0 } | if k > 1024 { 1 << L_NEST_GT1024 } else { 0 };
     DESTROYED.store(0, Ordering::Relaxed);
     let mk = |id: usize| {
         Rc::new(BNode { pad: [id as u64; 136], id: id as u32, canary: CANARY ^ id as u64, clone_on_drop: Cell::new(false), next: RefCell::new(Vec::with_capacity(4)) })
@@ -819,7 +849,7 @@ fn body_dense(id: &str, c: &BigCase, tier: Tier) {
     }
     sh.counters[20] = n as u64;
     sh.counters[22] = adoptions as u64;
-    sh.labels = (1 << L_DENSE) | if adoptions > 100_000 { 1 << L_DENSE_GT100K } else { 0 } | if n > 16 { 1 << L_GT16 } else { 0 } | if n > 128 { 1 << L_GT128 } else { 0 };
+    sh.labels |= (1 << L_DENSE) | if adoptions > 100_000 { 1 << L_DENSE_GT100K } else { 0 } | if n > 16 { 1 << L_GT16 } else { 0 } | if n > 128 { 1 << L_GT128 } else { 0 };
     let indeg = n - 1 + usize::from(selfloops);
     let kept: Option<(usize, Rc<BNode>)> = c.keep.first().map(|k| {
         let i = *k as usize % n;
@@ -917,7 +947,7 @@ fn body_sweep(c: &BigCase, tier: Tier) {
     if total > 128 {
         l |= 1 << L_GT128;
     }
-    sh.labels = l | (1 << L_KEEP);
+    sh.labels |= l | (1 << L_KEEP);
     let h0 = *b.h0.take().unwrap();
     let w0 = Rc::downgrade(&h0);
     let mut hold = h0;
@@ -1009,7 +1039,7 @@ fn body_hub_emptied(c: &BigCase, tier: Tier) {
     // one case in eight: a hub whose table grew far beyond the other scenarios
     let n = if (c.order >> 4) % 8 == 0 { 20_000 + (c.order as usize * 13) % 50_000 } else { n.min(6000) };
     sh.counters[20] = n as u64 + 1;
-    sh.labels = (1 << L_HUB_EMPTIED) | (1 << L_GT16) | if n > 128 { 1 << L_GT128 } else { 0 } | if n > 16384 { 1 << L_HUB_GT16K } else { 0 };
+    sh.labels |= (1 << L_HUB_EMPTIED) | (1 << L_GT16) | if n > 128 { 1 << L_GT128 } else { 0 } | if n > 16384 { 1 << L_HUB_GT16K } else { 0 };
     let mk = |id: usize| {
         Rc::new(BNode { pad: [id as u64; 136], id: id as u32, canary: CANARY ^ id as u64, clone_on_drop: Cell::new(false), next: RefCell::new(Vec::new()) })
     };
